@@ -28,7 +28,7 @@ type SimReader struct {
 	zeros int
 	// observations
 	Reads, ZeroReads, ShortReads, EOFWithData, CutHits, ErrReturned int64
-	Finished                                                      bool // EOF or the error has been returned
+	Finished                                                        bool // EOF or the error has been returned
 }
 
 const (
